@@ -132,6 +132,11 @@ func (server *Server) pop(conn *redis.Conn, key string, count int, isLPop bool) 
 		elems, ok = list.RPop(count)
 	}
 
+	if list.Len() == 0 {
+		// A list without elements does not exist.
+		db.RemoveRecord(key)
+	}
+
 	if !ok || len(elems) == 0 {
 		return redis.NewNilMessage(), nil
 	}
